@@ -16,7 +16,7 @@ TOL = 1e-10
 
 
 def plan(tier):
-    n = 320 if tier == 'quick' else 6000
+    n = 320 if tier == 'quick' else 3000
     return dict(n_cases=n, shards=16, min_nontrivial=n // 3,
                 min_tags={'conn:blade2d': n // 24, 'conn:t2d': n // 24, 'conn:SSycte': n // 16, 'conn:SSxcte': n // 12, 'conn:BFycte': n // 12, 'conn:BFxcte': n // 12, 'conn:SB': n // 12,
                           'order:p1_after_p2': n // 8, 'pos:interior': n // 8, 'clause:kt_kr': n // 8},
